@@ -137,42 +137,14 @@ impl Path {
                         first_point,
                     );
                 }
-                self.first_point = None;
+                // like filling, continue from the start of the subpath
+                self.current_point = self.first_point;
             }
 
             // to determine containment we just need to count crossing of ray from (x, y) going to infinity
             fn add_edge(&mut self, p1: Point, p2: Point) {
                 let (x1, y1) = (p1.x, p1.y);
                 let (x2, y2) = (p2.x, p2.y);
-
-                let dir = if y1 < y2 { -1 } else { 1 };
-
-                // entirely to the right
-                if x1 > self.x && x2 > self.x {
-                    return
-                }
-
-                // entirely above
-                if y1 > self.y && y2 > self.y {
-                    return
-                }
-
-                // entirely below
-                if y1 < self.y && y2 < self.y {
-                    return
-                }
-
-                // entirely to the left
-                if x1 < self.x && x2 < self.x {
-                    if y1 > self.y && y2 < self.y {
-                        self.count += 1;
-                        return;
-                    }
-                    if y2 > self.y && y1 < self.y {
-                        self.count -= 1;
-                        return;
-                    }
-                }
 
                 let dx = x2 - x1;
                 let dy = y2 - y1;
@@ -181,9 +153,22 @@ impl Path {
                 let cross = dx * (self.y - y1) - dy * (self.x - x1);
 
                 if cross == 0. {
-                    self.on_edge = true;
-                } else if (cross > 0. && dir > 0) || (cross < 0. && dir < 0) {
-                    self.count += dir;
+                    // we're on the line through p1 and p2
+                    // so we're on the edge if we're between the end points
+                    if self.x >= x1.min(x2) && self.x <= x1.max(x2) &&
+                       self.y >= y1.min(y2) && self.y <= y1.max(y2) {
+                        self.on_edge = true;
+                    }
+                } else if y1 <= self.y && self.y < y2 {
+                    // an edge includes its upper end point but not its lower one
+                    // so that a ray through a vertex is counted exactly once
+                    if cross < 0. {
+                        self.count -= 1;
+                    }
+                } else if y2 <= self.y && self.y < y1 {
+                    if cross > 0. {
+                        self.count += 1;
+                    }
                 }
             }
         }
